@@ -26,8 +26,11 @@ CONSTANTS
     MaxFaults,      \* how many system calls may fail in one run (environment)
     Ops,            \* subset of {"build_stream", "build_buf", "compact"}
     Strategy,       \* "temp" (as coded) | "direct" (mutant: File::create(dest)) | "copy" (mutant: persist by copy+remove)
-    SkipUnreadable, \* TRUE = as coded: compact() skips a source file whose read fails (modification.rs:631-638)
-    StrictErr       \* TRUE = demand Err => dest = Prev for compact too (refuted by the code: ErrAfterCommit)
+    SkipUnreadable, \* TRUE = compact() skips a source file whose read fails (the code before 131a1c3 for I/O errors;
+                    \*        still the code for non-I/O read errors: Err(_) => continue) -- refuted
+    StrictErr,      \* TRUE = demand Err => dest = Prev for compact too (refuted by the code: ErrAfterCommit)
+    DirtySession    \* TRUE = compact() is called with unflushed modifications: it first flushes them IN PLACE
+                    \*        into the destination (modification.rs, self.flush()? since 5040b10) -- refuted
 
 Dest == "D"
 
@@ -269,6 +272,17 @@ B_Return ==
     /\ UNCHANGED <<vop, vdone, vneed, vnfault, vread>>
 
 \* --- MutableArchive::compact (modification.rs:558) ----------------------------------------------
+\* MutableArchive::open (before the operation): the read/write handle on the destination, fd 4
+C_Begin ==
+    /\ vpc = "c_begin"
+    /\ FsOpen(Dest, 4, FALSE) /\ NoFault
+    /\ Goto(IF DirtySession THEN "c_flush" ELSE "c_open") /\ UNCHANGED <<vop, vdone, vneed, vread>>
+\* self.flush()? at the start of compact(): pending table changes are written into the destination itself
+C_Flush ==
+    /\ vpc = "c_flush"
+    /\ \/ /\ FsWrite(4, 1) /\ NoFault /\ Goto("c_open")
+       \/ /\ CanFail /\ FsFail("write") /\ Faulted /\ Goto("c_ret_err")
+    /\ UNCHANGED <<vop, vdone, vneed, vread>>
 \* NamedTempFile::new_in(archive_dir)?  -- keeps fd 5 and the name T1 until the function returns
 C_OpenTmp ==
     /\ vpc = "c_open"
@@ -290,8 +304,12 @@ C_StartBuild ==
 \* File::open(&temp_path)?  (replaces self.file; the old handle on the previous archive is dropped)
 C_Reopen ==
     /\ vpc = "c_reopen"
-    /\ \/ /\ FsOpen("T1", 6, FALSE) /\ NoFault /\ Goto("c_rename")
+    /\ \/ /\ FsOpen("T1", 6, FALSE) /\ NoFault /\ Goto("c_dropold")
        \/ /\ CanFail /\ FsFail("open") /\ Faulted /\ Goto("c_cleanup")
+    /\ UNCHANGED <<vop, vdone, vneed, vread>>
+\* ... the handle on the previous archive is dropped by the mem::replace
+C_DropOld ==
+    /\ vpc = "c_dropold" /\ FsClose(4) /\ NoFault /\ Goto("c_rename")
     /\ UNCHANGED <<vop, vdone, vneed, vread>>
 \* fs::rename(&temp_path, &self._path)?
 C_Rename ==
@@ -330,13 +348,13 @@ Die == Crash /\ Goto("dead") /\ UNCHANGED <<vop, vdone, vneed, vnfault, vread>>
 Init ==
     /\ vop \in Ops
     /\ \E prev \in BOOLEAN : (vop = "compact" => prev) /\ FsInit(prev, NW)
-    /\ vpc = IF vop = "compact" THEN "c_open" ELSE "b_open"
+    /\ vpc = IF vop = "compact" THEN "c_begin" ELSE "b_open"
     /\ vdone = 0 /\ vneed = NW /\ vnfault = 0 /\ vread = 0
 
 Next ==
     \/ B_OpenTmp \/ B_Seek \/ B_Write \/ B_Flush \/ B_Rename \/ B_CopyOpen \/ B_Copy \/ B_CopyRm
     \/ B_Cleanup \/ B_Close \/ B_Return
-    \/ C_OpenTmp \/ C_Read \/ C_StartBuild \/ C_Reopen \/ C_Rename \/ C_Verify \/ C_OpenRw
+    \/ C_Begin \/ C_Flush \/ C_OpenTmp \/ C_Read \/ C_StartBuild \/ C_Reopen \/ C_DropOld \/ C_Rename \/ C_Verify \/ C_OpenRw
     \/ C_Cleanup \/ C_Return
     \/ Die
 
